@@ -40,6 +40,16 @@ def gen_case(r, shape):
         else:
             doc[r.choice(["big", "n"])] = r.choice(big if name == "has_factor" else small)
         leaf = leaf.replace(kwargs={"value": r.choice(small if name == "has_factor" else big)})
+    if name == "items_contain" and pre is None and kind == "value" and r.pct() < 10:
+        # an expected key that is spelled like a parameter name somewhere inside the library, present in an item
+        kname = r.choice(["trial_dict", "value", "datum", "kwargs", "args", "data", "key"])
+        v = G.scalar(r)
+        item = {kname: v, "other": 1} if r.coin() else {kname: v}
+        if isinstance(doc, list):
+            doc.insert(r.below(len(doc) + 1), item)
+        else:
+            doc[r.choice(["it", "n"])] = item
+        return Leaf(kind, pre, name, (), {kname: v}), doc
     # document-guided arguments: take the argument from the document's own items
     if r.pct() < 40:
         items = model.items_of(doc)
